@@ -88,3 +88,42 @@ Theorem C04_edit_excludes_only_that_event :
     only (fun r => V r \/ (v = false /\ r = nth i (f_rids f) (-1))) g.
 Proof. exact only_edit. Qed.
 Print Assumptions C04_edit_excludes_only_that_event.
+
+(* The whole chain through a whole history.  spec_run executes the history
+   on the model and tracks, beside it and per level, the user's intent: the
+   root ids of the events excluded there by filter.manual[i] = False and not
+   re-included since (g_excl), and of all events ever excluded there
+   (g_ever).  For every root dataset, every history (any interleaving of
+   range edits, manual edits, temporary features, switches, growth and
+   rejuvenate on any level, depth up to 4) and every level of the resulting
+   chain:
+     - an event of g_excl that is among the level's events is excluded in
+       filter.manual;
+     - an event of g_excl that is hidden is kept in the stored root ids;
+     - an event excluded in filter.manual is in g_ever;
+     - filter.manual has one entry per event. *)
+Theorem C04_history_manual_exclusions :
+  forall n cols ops st gs k l g,
+    spec_run (init n cols) [mkghost [] []] ops = (st, gs) ->
+    nth_error (s_levels st) k = Some l -> nth_error gs k = Some g ->
+    let f := l_filt l in
+    (forall j, (j < length (f_rids f))%nat ->
+               In (nth j (f_rids f) (-1)) (g_excl g) ->
+               nth j (f_manual f) true = false)
+    /\ (forall r, In r (g_excl g) -> ~ In r (f_rids f) -> In r (f_mri f))
+    /\ (forall j, (j < length (f_rids f))%nat ->
+                  nth j (f_manual f) true = false ->
+                  In (nth j (f_rids f) (-1)) (g_ever g))
+    /\ length (f_manual f) = length (f_rids f).
+Proof. exact history_manual_exclusions. Qed.
+Print Assumptions C04_history_manual_exclusions.
+
+(* ... where, after rejuvenate of the youngest at the end of any history,
+   the root ids a filter works with (f_rids) are those of the level's
+   events: the parent's root ids restricted to the parent's filter. *)
+Theorem C04_history_root_ids_after_rejuvenate :
+  forall n cols ops st gs,
+    spec_run (init n cols) [mkghost [] []] ops = (st, gs) ->
+    rids_ok (s_levels (fst (step st (3, 0, 0, 0, 0)))).
+Proof. exact history_rids_after_rejuvenate. Qed.
+Print Assumptions C04_history_root_ids_after_rejuvenate.
